@@ -6,7 +6,7 @@ import os
 import random
 import time
 
-from . import common, gen, queryfam, c10
+from . import common, gen, queryfam, c10, worldfam
 
 TRUSTED_BASE = [
     "Lean 4.33.0 kernel (axioms limited to propext, Classical.choice, Quot.sound; audited per theorem on every run)",
@@ -299,6 +299,15 @@ REGISTRY = {
                 "plus unix-socket sessions of 1-6 requests with KeepAlive on/off and an unparsable request at a random position, compared bytewise with the composition given by Lmd.sessionPlan; non-trivial = a session of at least two requests or a data/stats case as in C01",
         "correspondence": "Lmd.fixed16Header / Lmd.sessionPlan / Lmd.cellJson vs Response.send / ClientConnection.answer / DataRow.WriteJSON*",
         "assumptions": QUERY_ASSUMPTIONS + ["jsoniter's scalar encoder is an oracle checked by the strict parser, not modelled"],
+    },
+    "C02": {
+        "lean_modules": ["C02"],
+        "run": worldfam.run_c02,
+        "rule": "lmd peers are synchronised (real Peer.InitAllTables over unix sockets) from scripted Livestatus backends of flavours naemon/icinga2/shinken/plain with random optional-column sets, "
+                "rows delivered in shuffled order, strings of 0-3000 bytes with control bytes and quotes, equal and near-equal lists, numbers at and beyond the column ranges, MaxParallelPeerConnections 1 and 3; "
+                "every table is read back with every modelled column and compared with Lmd.syncBackend applied to the backend's source rows",
+        "correspondence": "Lmd.syncTable / Lmd.coerce / Lmd.buildIdLists vs CreateObjectByType / interface2* / buildDowntimeCommentsList",
+        "assumptions": QUERY_ASSUMPTIONS + ["the scripted backend (own parser/evaluator) is trusted", "xxhash32 collisions of different lists are not generated (content comparison added by fix 0ebe0ec makes them harmless)"],
     },
     "C04": {
         "lean_modules": ["C04"],
